@@ -19,13 +19,16 @@ def miri_jobs_late(names, seeds_each, shards_each):
 
 PLAN["C02"] = dict(
     level="exploration",
-    engines=["seq (native, debug assertions on)", "seq (AddressSanitizer)"],
+    engines=["seq (native, debug assertions on)", "seq (AddressSanitizer)", "seq (Miri: four to eight fixed small sequences)"],
     assumptions=[
         "BTreeMap/BTreeSet are the reference; the generator reaches every public single-thread operation (per-op counters in coverage)",
         "sequences are random samples of the infinite space of sequences, not an enumeration",
     ],
     require={"steps": 1000},
-    jobs=lambda t: [
+    miri_classes=["ub", "panic", "leak"],
+    jobs=lambda t: [J(f"miri-seq-{i}", "miri", a, shards=1, seeds=(0, 1), budget_s=240, absolute_seeds=True) for i, a in enumerate(
+        [["seq", 0, 0, 20, 90, 1], ["seq", 2, 64, 14, 70, 2], ["seq", 6, 64, 30, 80, 3], ["seqset", 5, 0, 16, 60, 4]]
+        + ([["seq", 1, 3, 40, 150, 5], ["seq", 3, 64, 18, 120, 6], ["seq", 4, 8, 24, 120, 7], ["seqset", 2, 64, 14, 100, 8]] if t == "thorough" else []))] + [
         J("seq", "native", ["c02", "--sequences", q(t, 700, 8000)], shards=16, budget_s=q(t, 40, 600)),
         J("seq-asan", "asan", ["c02", "--sequences", q(t, 80, 800)], shards=q(t, 8, 16), budget_s=q(t, 30, 400)),
     ],
@@ -111,7 +114,7 @@ PLAN["C10"] = dict(
     level="exploration",
     engines=["resize event monitor over orchestrated (gated) and free-run resizes (native)", "stamp arithmetic over all 31 table lengths"],
     assumptions=["resize events are emitted by hooks at points ordered before the next generation can begin"],
-    require={"stamp_lengths": 31, "orch_generations_multi_helper": 5, "generations": 50, "generations_multi_helper": 3, "ladder_runs": 6, "ladder_growths": 30},
+    require={"help_transfer_joins_orchestrated": 6, "stamp_lengths": 31, "orch_generations_multi_helper": 5, "generations": 50, "generations_multi_helper": 3, "ladder_runs": 6, "ladder_growths": 30},
     jobs=lambda t: [
         J("resize", "native", ["c10", "--rounds", q(t, 700, 6000)], shards=q(t, 8, 12), budget_s=q(t, 40, 900), parallel=q(t, 8, 12)),
     ],
